@@ -779,6 +779,8 @@ var c12Cells = []c12Cell{
 		"D:0:-:0/0/1/- D:1:0:- D:2:0:0/1/-/- D:3:1,2:- P:3 M:3:- M:3:0=1000 M:3:1=1010 M:1:1=1010"},
 	{"super-order/ancestor-first", 1,
 		"D:0:-:0/-/1/- D:1:0:0/-/11/- D:2:0,1:- P:2 M:2:- A:2:0,1 D:3:1,0:- P:3 M:3:- A:3:0,1"},
+	{"super-order/duplicate-direct", 1,
+		"D:0:-:0/-/1/- D:1:0,0:1/-/12/- P:1 M:1:- D:2:1,0,1:- P:2 M:2:- T:2:0 A:2:0,1,2"},
 	{"shadow/initform-levels", 1,
 		"D:0:-:0/0/1/- D:1:0:0/-/11/- D:2:1:0/1/-/- D:3:2:- P:3 M:0:- M:1:- M:2:- M:3:- M:2:0=1000 M:2:1=1010 M:3:0=1000 M:3:1=1010"},
 	{"shadow/no-initform-below-unbound-above", 1,
